@@ -3224,7 +3224,7 @@ func (m *Machine) SetSchema(newSchema Schema, names S) error {
 		return err
 	}
 	// TODO is this safe?
-	m.subs.SetClock(m.Clock(nil))
+	m.subs.SetClock(m.clock)
 	m.schemaMx.Unlock()
 
 	// notify the resolver and tracers
